@@ -1024,6 +1024,286 @@ fn nested_cases(out: &mut Buf, st: &mut Stats, rng: &mut Rng, worlds: usize, per
     }
 }
 
+// ---------------------------------------------------------------- tier T3, first slice: aggregates and json selectors
+fn read_json(conn: &Connection, dm: &DataModel, text: &str) -> Result<serde_json::Value, String> {
+    let qp = QueryParser::parse(text, dm).map_err(|e| format!("parse: {}", e))?;
+    let pq = PreparedQueries::build(&qp).map_err(|e| format!("build: {}", e))?;
+    let mut q = Query { parameters: Parameters::new(), parser: Arc::new(qp), sql_queries: Arc::new(pq) };
+    let s = q.read(conn).map_err(|e| format!("read: {}", e))?;
+    serde_json::from_str(&s).map_err(|e| format!("json: {}", e))
+}
+const AGG_FIELDS: [(&str, FT, bool); 6] = [("g", FT::Str, false), ("h", FT::Int, true), ("k", FT::Bool, false), ("w", FT::Int, true), ("x", FT::Flt, true), ("s", FT::Str, true)];
+const AGG_MODEL: &str = "{ A { g: String, h: Integer nullable, k: Boolean, w: Integer nullable, x: Float nullable, s: String nullable } }";
+#[derive(Clone, Debug)]
+enum ACol { Field(usize, Option<String>), Count(String), Avg(String, usize), Max(String, usize), Min(String, usize), Sum(String, usize) }
+impl ACol {
+    fn name(&self) -> String { match self { ACol::Field(f, a) => a.clone().unwrap_or(AGG_FIELDS[*f].0.to_string()), ACol::Count(n) | ACol::Avg(n, _) | ACol::Max(n, _) | ACol::Min(n, _) | ACol::Sum(n, _) => n.clone() } }
+    fn text(&self) -> String {
+        match self {
+            ACol::Field(f, None) => AGG_FIELDS[*f].0.to_string(), ACol::Field(f, Some(a)) => format!("{}: {}", a, AGG_FIELDS[*f].0),
+            ACol::Count(n) => format!("{}: count()", n), ACol::Avg(n, f) => format!("{}: avg({})", n, AGG_FIELDS[*f].0), ACol::Max(n, f) => format!("{}: max({})", n, AGG_FIELDS[*f].0),
+            ACol::Min(n, f) => format!("{}: min({})", n, AGG_FIELDS[*f].0), ACol::Sum(n, f) => format!("{}: sum({})", n, AGG_FIELDS[*f].0),
+        }
+    }
+    fn coq(&self) -> String {
+        match self {
+            ACol::Field(f, _) => format!("(GField {})", f), ACol::Count(_) => "(GAgg ACount)".into(), ACol::Avg(_, f) => format!("(GAgg (AAvg {}))", f), ACol::Max(_, f) => format!("(GAgg (AMax {}))", f),
+            ACol::Min(_, f) => format!("(GAgg (AMin {}))", f), ACol::Sum(_, f) => format!("(GAgg (ASum {}))", f),
+        }
+    }
+    fn is_agg(&self) -> bool { !matches!(self, ACol::Field(..)) }
+    /// the literal type a having filter on this column takes
+    fn lit_type(&self) -> FT { match self { ACol::Field(f, _) | ACol::Max(_, f) | ACol::Min(_, f) => AGG_FIELDS[*f].1, ACol::Count(_) => FT::Int, _ => FT::Flt } }
+    fn enc(&self, v: &serde_json::Value, o: &mut Vec<i64>) {
+        match self {
+            ACol::Field(f, _) | ACol::Max(_, f) | ACol::Min(_, f) => json_to_val(v, AGG_FIELDS[*f].1).enc(o),
+            ACol::Count(_) => json_to_val(v, FT::Int).enc(o),
+            ACol::Sum(..) => json_to_val(v, FT::Flt).enc(o),
+            ACol::Avg(..) => match v.as_f64() { Some(a) => { o.push(7); o.push((a * 1e6).round() as i64) } None => json_to_val(v, FT::Flt).enc(o) },
+        }
+    }
+}
+struct AQuery { cols: Vec<ACol>, wher: Vec<(usize, usize, Val)>, having: Vec<(usize, usize, Val)>, order: Vec<(usize, bool)>, first: i64, skip: i64 }
+impl AQuery {
+    fn text(&self) -> String {
+        let mut ps: Vec<String> = vec![];
+        for (f, op, v) in &self.wher { ps.push(format!("{} {} {}", AGG_FIELDS[*f].0, OPS[*op], v.text())); }
+        for (k, op, v) in &self.having { ps.push(format!("{} {} {}", self.cols[*k].name(), OPS[*op], v.text())); }
+        if !self.order.is_empty() { ps.push(format!("order_by({})", self.order.iter().map(|(k, d)| format!("{} {}", self.cols[*k].name(), if *d { "desc" } else { "asc" })).collect::<Vec<_>>().join(", "))); }
+        if self.first != 0 { ps.push(format!("first {}", self.first)); }
+        if self.skip != 0 { ps.push(format!("skip {}", self.skip)); }
+        let sel: Vec<String> = self.cols.iter().map(|c| c.text()).collect();
+        format!("query {{ A {} {{ {} }} }}", if ps.is_empty() { String::new() } else { format!("({})", ps.join(", ")) }, sel.join(" "))
+    }
+    fn coq(&self) -> String {
+        let f3 = |l: &Vec<(usize, usize, Val)>| glist(&l.iter().map(|(i, op, v)| format!("({}%nat, {}, {})", i, OPS_COQ[*op], v.coq())).collect::<Vec<_>>());
+        format!("(Build_aquery {} {} {} {} {} {})", glist(&self.cols.iter().map(|c| c.coq()).collect::<Vec<_>>()), f3(&self.wher), f3(&self.having),
+            glist(&self.order.iter().map(|(k, d)| format!("({}%nat, {})", k, if *d { "Desc" } else { "Asc" })).collect::<Vec<_>>()), gz(self.first), gz(self.skip))
+    }
+}
+struct AWorld { dm: DataModel, conn: Connection, rows: Vec<Vec<Val>> }
+fn agg_world(rows: Vec<Vec<Val>>) -> AWorld {
+    let mut dm = DataModel::new();
+    dm.update(AGG_MODEL).unwrap();
+    let conn = Connection::open_in_memory().unwrap();
+    prepare_connection(&conn).unwrap();
+    for r in &rows {
+        // every member is written, an absent value as an explicit null
+        let fs: Vec<String> = r.iter().enumerate().map(|(i, v)| format!("{}: {}", AGG_FIELDS[i].0, v.text())).collect();
+        mutate(&conn, &dm, &format!("mutate {{ A {{ {} }} }}", fs.join(" ")), Parameters::new());
+    }
+    AWorld { dm, conn, rows }
+}
+fn gen_agg_val(rng: &mut Rng, f: usize) -> Val {
+    let (_, ty, nullable) = AGG_FIELDS[f];
+    if nullable && rng.chance(1, 4) { return Val::Null; }
+    match (f, ty) {
+        (0, _) => Val::Str(rng.pick(&["a", "b", "ab", "B", "é"]).to_string()),
+        (1, _) => Val::Int(rng.range(1, 2)),
+        (_, FT::Bool) => Val::Bool(rng.chance(1, 2)),
+        (_, FT::Int) => Val::Int(*rng.pick(&[-3i64, 0, 1, 2, 5, 9, 10, 11, 20, 100, 101, -10])),
+        (_, FT::Flt) => Val::Flt(*rng.pick(&[-14i64, 0, 1, 6, 10, 28, 36, 40, 41, 400, -3])),
+        (_, FT::Str) => Val::Str(rng.pick(&["a", "b", "ab", "B", "10", "9", "z", "a\"b", ""]).to_string()),
+    }
+}
+fn gen_agg_query(rng: &mut Rng) -> AQuery {
+    let mut cols: Vec<ACol> = vec![];
+    let ngroup = *rng.pick(&[0usize, 1, 1, 1, 2, 2, 3]);
+    let mut gf: Vec<usize> = vec![];
+    while gf.len() < ngroup { let f = *rng.pick(&[0usize, 0, 1, 1, 2, 5, 3]); if !gf.contains(&f) { gf.push(f); } }
+    for (n, f) in gf.iter().enumerate() { cols.push(ACol::Field(*f, if rng.chance(1, 4) { Some(format!("ga{}", n)) } else { None })); }
+    let nagg = rng.range(1, 3) as usize;
+    for n in 0..nagg {
+        let name = format!("c{}", n);
+        let num = *rng.pick(&[3usize, 4]);
+        let any = *rng.pick(&[3usize, 3, 4, 4, 5, 0]);
+        cols.push(match rng.below(7) { 0 | 1 => ACol::Count(name), 2 => ACol::Avg(name, num), 3 => ACol::Sum(name, num), 4 => ACol::Max(name, any), 5 => ACol::Min(name, any), _ => ACol::Avg(name, num) });
+    }
+    // the selection in any order
+    for i in (1..cols.len()).rev() { let j = rng.below(i as u64 + 1) as usize; cols.swap(i, j); }
+    let mut wher = vec![];
+    for _ in 0..*rng.pick(&[0usize, 0, 1, 1, 2]) {
+        let f = rng.below(6) as usize;
+        let v = if AGG_FIELDS[f].2 && rng.chance(1, 5) { Val::Null } else { let mut v = gen_agg_val(rng, f); while v == Val::Null { v = gen_agg_val(rng, f); } v };
+        let op = if v == Val::Null || AGG_FIELDS[f].1 == FT::Bool { rng.below(2) as usize } else { rng.below(6) as usize };
+        wher.push((f, op, v));
+    }
+    let mut having = vec![];
+    let aggs: Vec<usize> = (0..cols.len()).filter(|k| cols[*k].is_agg()).collect();
+    for _ in 0..*rng.pick(&[0usize, 0, 1, 1, 2]) {
+        let k = *rng.pick(&aggs);
+        let v = match (&cols[k], cols[k].lit_type()) {
+            (ACol::Count(_), _) => Val::Int(rng.range(0, 3)),
+            (_, FT::Int) => Val::Int(*rng.pick(&[0i64, 2, 9, 10, 20, 100])),
+            (_, FT::Flt) => Val::Flt(*rng.pick(&[0i64, 4, 6, 10, 28, 40, 41, 36])),
+            (_, FT::Str) => Val::Str(rng.pick(&["a", "b", "10", "9"]).to_string()),
+            (_, FT::Bool) => Val::Bool(true),
+        };
+        having.push((k, rng.below(6) as usize, v));
+    }
+    let mut order = vec![];
+    if rng.chance(2, 3) {
+        // total on the groups: every group column is a key; aggregates may come before, between or after them
+        let mut keys: Vec<usize> = (0..cols.len()).filter(|k| !cols[*k].is_agg() || rng.chance(1, 2)).collect();
+        for i in (1..keys.len()).rev() { let j = rng.below(i as u64 + 1) as usize; keys.swap(i, j); }
+        order = keys.into_iter().map(|k| (k, rng.chance(1, 2))).collect();
+    }
+    let (first, skip) = if !order.is_empty() && rng.chance(1, 2) { (rng.range(0, 3), rng.range(0, 2)) } else { (0, 0) };
+    AQuery { cols, wher, having, order, first, skip }
+}
+fn push_agg(out: &mut Buf, w: &AWorld, q: &AQuery, kind: &str) {
+    let text = q.text();
+    let (obs, note) = match read_json(&w.conn, &w.dm, &text) {
+        Err(e) => (vec![2], e),
+        Ok(v) => {
+            let arr = v.get("A").and_then(|x| x.as_array()).cloned().unwrap_or_default();
+            let mut rows: Vec<Vec<i64>> = arr.iter().map(|o| {
+                let mut r = vec![q.cols.len() as i64];
+                for c in &q.cols { match o.get(&c.name()) { Some(x) => c.enc(x, &mut r), None => { r.push(4); enc_str("<<missing key>>", &mut r) } } }
+                r
+            }).collect();
+            if q.order.is_empty() { rows.sort(); }
+            let mut ob = vec![0, rows.len() as i64];
+            for r in rows { ob.extend(r); }
+            (ob, v.to_string())
+        }
+    };
+    out.push(Case { kind: kind.into(), coq: format!("CAgg {} {}", rows_coq(&w.rows), q.coq()), obs, meta: json!({"query": text, "answer": note, "rows": w.rows.len()}) });
+}
+fn agg_cases(out: &mut Buf, rng: &mut Rng, worlds: usize, per_world: usize) {
+    let i = |z: i64| Val::Int(z); let s = |x: &str| Val::Str(x.to_string());
+    // directed: the two open classes and their neighbours
+    let w = agg_world(vec![
+        vec![s("a"), i(1), Val::Bool(true), i(9), Val::Flt(6), Val::Null], vec![s("a"), i(1), Val::Bool(false), i(10), Val::Flt(10), s("b")],
+        vec![s("a"), Val::Null, Val::Bool(true), i(100), Val::Null, s("a")], vec![s("b"), i(2), Val::Bool(true), Val::Null, Val::Flt(1), Val::Null],
+        vec![s("b"), i(2), Val::Bool(true), Val::Null, Val::Null, Val::Null], vec![s("c"), Val::Null, Val::Bool(false), i(-3), Val::Flt(28), s("z")]]);
+    let q0 = |cols: Vec<ACol>| AQuery { cols, wher: vec![], having: vec![], order: vec![(0, false)], first: 0, skip: 0 };
+    let n = |x: &str| x.to_string();
+    push_agg(out, &w, &q0(vec![ACol::Field(0, None), ACol::Max(n("mx"), 3), ACol::Min(n("mn"), 3)]), "directed-agg-minmax-text-order");
+    push_agg(out, &w, &q0(vec![ACol::Field(0, None), ACol::Avg(n("a"), 3)]), "directed-agg-avg-counts-null");
+    push_agg(out, &w, &q0(vec![ACol::Field(0, None), ACol::Count(n("c")), ACol::Sum(n("s"), 3), ACol::Sum(n("sx"), 4)]), "directed-agg-count-sum");
+    push_agg(out, &w, &AQuery { cols: vec![ACol::Count(n("c")), ACol::Sum(n("s"), 3), ACol::Avg(n("a"), 4), ACol::Max(n("m"), 5)], wher: vec![(0, 0, s("zz"))], having: vec![], order: vec![], first: 0, skip: 0 }, "directed-agg-no-row");
+    push_agg(out, &w, &AQuery { cols: vec![ACol::Field(0, None), ACol::Count(n("c"))], wher: vec![(0, 0, s("zz"))], having: vec![], order: vec![], first: 0, skip: 0 }, "directed-agg-no-group");
+    push_agg(out, &w, &AQuery { cols: vec![ACol::Field(0, None), ACol::Count(n("c"))], wher: vec![], having: vec![(1, 4, i(1))], order: vec![(1, true), (0, true)], first: 1, skip: 1 }, "directed-agg-having-order-limit");
+    push_agg(out, &w, &AQuery { cols: vec![ACol::Field(1, Some(n("hh"))), ACol::Field(2, None), ACol::Count(n("c")), ACol::Max(n("m"), 0)], wher: vec![(3, 1, Val::Null)], having: vec![], order: vec![], first: 0, skip: 0 }, "directed-agg-null-group");
+    for _ in 0..worlds {
+        let mut r = rng.fork();
+        let nrows = r.below(11) as usize;
+        let rows: Vec<Vec<Val>> = (0..nrows).map(|_| (0..6).map(|f| gen_agg_val(&mut r, f)).collect()).collect();
+        let w = agg_world(rows);
+        for _ in 0..per_world { let q = gen_agg_query(&mut r); push_agg(out, &w, &q, "agg"); }
+    }
+}
+
+// json selectors
+#[derive(Clone, Debug)]
+enum PStep { Key(String), KeyIdx(String, usize) }
+#[derive(Clone, Debug)]
+enum JSel { Path(Vec<PStep>), Index(usize) }
+impl JSel {
+    fn text(&self) -> String {
+        match self {
+            JSel::Index(i) => format!("j->{}", i),
+            JSel::Path(p) => format!("j->${}", p.iter().map(|s| match s { PStep::Key(k) => format!(".{}", k), PStep::KeyIdx(k, i) => format!(".{}[{}]", k, i) }).collect::<String>()),
+        }
+    }
+    fn coq(&self) -> String {
+        match self {
+            JSel::Index(i) => format!("(SIndex {})", i),
+            JSel::Path(p) => format!("(SPath {})", glist(&p.iter().map(|s| match s { PStep::Key(k) => format!("(PKey {})", gstr(k)), PStep::KeyIdx(k, i) => format!("(PKeyIdx {} {})", gstr(k), i) }).collect::<Vec<_>>())),
+        }
+    }
+    fn get<'a>(&self, d: &'a serde_json::Value) -> Option<&'a serde_json::Value> {
+        match self {
+            JSel::Index(i) => d.as_array().and_then(|a| a.get(*i)),
+            JSel::Path(p) => { let mut cur = d; for s in p { match s { PStep::Key(k) => cur = cur.as_object()?.get(k)?, PStep::KeyIdx(k, i) => cur = cur.as_object()?.get(k)?.as_array()?.get(*i)? } } Some(cur) }
+        }
+    }
+}
+fn doc_coq(v: &serde_json::Value) -> String {
+    match v {
+        serde_json::Value::Null => "DNull".into(), serde_json::Value::Bool(b) => format!("(DBool {})", gb(*b)), serde_json::Value::Number(n) => format!("(DInt {})", gz(n.as_i64().unwrap())),
+        serde_json::Value::String(s) => format!("(DStr {})", gstr(s)), serde_json::Value::Array(a) => format!("(DArr {})", glist(&a.iter().map(doc_coq).collect::<Vec<_>>())),
+        serde_json::Value::Object(m) => format!("(DObj {})", glist(&m.iter().map(|(k, v)| format!("({}, {})", gstr(k), doc_coq(v))).collect::<Vec<_>>())),
+    }
+}
+fn enc_doc(v: &serde_json::Value, o: &mut Vec<i64>) {
+    match v {
+        serde_json::Value::Null => o.push(0), serde_json::Value::Bool(b) => { o.push(1); o.push(*b as i64) }
+        serde_json::Value::Number(n) => match n.as_i64() { Some(z) => { o.push(2); o.push(z) } None => { o.push(3); o.push((n.as_f64().unwrap() * 4.0) as i64) } },
+        serde_json::Value::String(s) => { o.push(4); enc_str(s, o) }
+        serde_json::Value::Array(a) => { o.push(6); o.push(a.len() as i64); for x in a { enc_doc(x, o) } }
+        serde_json::Value::Object(m) => {
+            let mut kv: Vec<(&String, &serde_json::Value)> = m.iter().collect();
+            kv.sort_by(|a, b| a.0.chars().map(|c| c as u32).collect::<Vec<_>>().cmp(&b.0.chars().map(|c| c as u32).collect::<Vec<_>>()));
+            o.push(5); o.push(kv.len() as i64); for (k, x) in kv { enc_str(k, o); enc_doc(x, o) }
+        }
+    }
+}
+fn gen_scalar_doc(rng: &mut Rng) -> serde_json::Value {
+    match rng.below(6) { 0 => json!(null), 1 => json!(rng.chance(1, 2)), 2 | 3 => json!(rng.range(-2, 12)), _ => json!(*rng.pick(&["a", "b", "10", "", "é", "a\"b", "true"])) }
+}
+fn gen_doc(rng: &mut Rng, depth: usize) -> serde_json::Value {
+    if depth == 0 { return gen_scalar_doc(rng); }
+    match rng.below(7) {
+        0 => gen_scalar_doc(rng),
+        1 | 2 => serde_json::Value::Array((0..rng.below(4)).map(|_| gen_doc(rng, depth - 1)).collect()),
+        _ => { let mut m = serde_json::Map::new(); for k in ["a", "b", "c", "z"] { if rng.chance(3, 5) { m.insert(k.to_string(), gen_doc(rng, depth - 1)); } } serde_json::Value::Object(m) }
+    }
+}
+fn gen_jsel(rng: &mut Rng) -> JSel {
+    if rng.chance(1, 5) { return JSel::Index(rng.below(3) as usize); }
+    let n = rng.below(4) as usize;
+    JSel::Path((0..n).map(|_| { let k = rng.pick(&["a", "b", "c", "z"]).to_string(); if rng.chance(1, 4) { PStep::KeyIdx(k, rng.below(3) as usize) } else { PStep::Key(k) } }).collect())
+}
+fn jsel_cases(out: &mut Buf, rng: &mut Rng, worlds: usize, per_world: usize) {
+    for wn in 0..worlds {
+        let mut r = rng.fork();
+        let mut dm = DataModel::new();
+        dm.update("{ J { g: String, j: Json nullable } }").unwrap();
+        let conn = Connection::open_in_memory().unwrap();
+        prepare_connection(&conn).unwrap();
+        let n = 1 + r.below(7) as usize;
+        let mut docs: Vec<Option<serde_json::Value>> = (0..n).map(|_| if r.chance(1, 8) { None } else { Some(gen_doc(&mut r, 3)) }).collect();
+        if wn == 0 { docs = vec![Some(json!({"a": 1, "b": [1, {"z": "s"}], "c": {"z": true, "a": null}})), Some(json!([5, "x", {"a": 2}])), None, Some(json!({"a": "1", "c": {"z": 1}})), Some(json!("top")), Some(json!({"a": null}))]; }
+        for (k, d) in docs.iter().enumerate() {
+            let mut p = Parameters::new();
+            match d { Some(v) => p.add("j", v.to_string()).unwrap(), None => p.add("j", Option::<String>::None).unwrap() }
+            p.add("g", format!("r{:02}", k)).unwrap();
+            mutate(&conn, &dm, "mutate { J { g: $g j: $j } }", p);
+        }
+        for qn in 0..per_world {
+            let mut sels: Vec<JSel> = (0..r.range(1, 3)).map(|_| gen_jsel(&mut r)).collect();
+            if wn == 0 && qn == 0 { sels = vec![JSel::Path(vec![]), JSel::Path(vec![PStep::Key("a".into())]), JSel::Path(vec![PStep::KeyIdx("b".into(), 1), PStep::Key("z".into())]), JSel::Index(2), JSel::Path(vec![PStep::Key("c".into()), PStep::Key("z".into())])]; }
+            let mut fs: Vec<(JSel, usize, Val)> = vec![];
+            for _ in 0..*r.pick(&[0usize, 1, 1, 2]) {
+                let sl = gen_jsel(&mut r);
+                // a filter only on a selector that never selects an array or an object in this table
+                if docs.iter().any(|d| d.as_ref().and_then(|d| sl.get(d)).map(|x| x.is_array() || x.is_object()).unwrap_or(false)) { continue; }
+                let v = match r.below(6) { 0 => Val::Null, 1 => Val::Bool(r.chance(1, 2)), 2 | 3 => Val::Int(r.range(-1, 11)), 4 => Val::Flt(r.range(-2, 8)), _ => Val::Str(r.pick(&["a", "b", "10", "", "true", "1"]).to_string()) };
+                let op = if v == Val::Null { r.below(2) as usize } else { r.below(6) as usize };
+                fs.push((sl, op, v));
+            }
+            let mut ps: Vec<String> = vec!["order_by(g asc)".into()];
+            for (sl, op, v) in &fs { ps.push(format!("{} {} {}", sl.text(), OPS[*op], v.text())); }
+            let text = format!("query {{ J ({}) {{ g {} }} }}", ps.join(", "), sels.iter().enumerate().map(|(k, s)| format!("s{}: {}", k, s.text())).collect::<Vec<_>>().join(" "));
+            let (obs, note) = match read_json(&conn, &dm, &text) {
+                Err(e) => (vec![2], e),
+                Ok(v) => {
+                    let arr = v.get("J").and_then(|x| x.as_array()).cloned().unwrap_or_default();
+                    let mut ob = vec![0, arr.len() as i64];
+                    for o in &arr { ob.push(sels.len() as i64); for k in 0..sels.len() { match o.get(&format!("s{}", k)) { Some(x) => enc_doc(x, &mut ob), None => { ob.push(4); enc_str("<<missing key>>", &mut ob) } } } }
+                    (ob, v.to_string())
+                }
+            };
+            let docs_coq = glist(&docs.iter().map(|d| gopt(&d.as_ref().map(doc_coq))).collect::<Vec<_>>());
+            let fs_coq = glist(&fs.iter().map(|(sl, op, v)| format!("({}, {}, {})", sl.coq(), OPS_COQ[*op], v.coq())).collect::<Vec<_>>());
+            out.push(Case { kind: if wn == 0 && qn == 0 { "directed-jsel".into() } else { "jsel".into() }, coq: format!("CJsel {} {} {}", docs_coq, glist(&sels.iter().map(|s| s.coq()).collect::<Vec<_>>()), fs_coq), obs,
+                meta: json!({"query": text, "answer": note}) });
+        }
+    }
+}
+
 fn main() {
     let mut rng = Rng::from_env();
     let mut real_out = Out::create();
@@ -1043,6 +1323,8 @@ fn main() {
     }
     dense_paging(&mut out, &mut st, &mut rng, scale(8, 120));
     nested_cases(&mut out, &mut st, &mut rng, scale(30, 450), 10);
+    agg_cases(&mut out, &mut rng, scale(25, 400), 8);
+    jsel_cases(&mut out, &mut rng, scale(20, 300), 6);
     eprintln!("c05: {}", st.json());
     out.0[0].meta["generator"] = st.json();
     for c in out.0 { real_out.push(c); }
